@@ -283,7 +283,7 @@ PROPERTY = {
     'lean_module': 'TracingModel.Props.C10',
     'namespace': 'C10',
     'units': ['ValueTable'],
-    'required_theorems': ['C10.table_facts', 'C10.typed_dispatch', 'C10.names_in_order', 'C10.value_alignment', 'C10.empty_not_visited', 'C10.eval_once_or_never'],
+    'required_theorems': ['C10.table_facts', 'C10.typed_dispatch', 'C10.names_in_order', 'C10.value_alignment', 'C10.empty_not_visited', 'C10.eval_once_or_never', 'C10.every_set_field_visited', 'C10.visited_exactly_once'],
     'streams': [_s],
     'rule': 'one case = one generated macro invocation (compiled): event!/span!/error!…trace!/error_span!…, optional target:/parent:/name: prefixes, 0-5 fields in the forms name = value, %/? sigils, shorthand '
             'identifiers (with sigils), dotted, raw-identifier and string-literal names (incl. names beginning with % or ?), Empty, plus a trailing format string with 0-2 arguments and an implicit capture; values of every '
